@@ -779,6 +779,9 @@ Definition opt_list_set_eqb (a b : option (list bytes)) : bool :=
 Definition status_allows_body (method : bytes) (st : N) : bool :=
   negb (beq method (bs "HEAD"%string)) && (200 <=? st) && negb (st =? 204) && negb (st =? 304).
 
+Record seqitem := { si_q : request; si_body : bytes; si_chunked : bool; si_pre : hdr; si_b : bresp; si_bbody : bytes;
+                    si_sent : list sent_obs; si_client : client_obs; si_ret : N }.
+
 Inductive case :=
 | CKey (s obs : bytes)
 | CSjs (a b obs : bytes)
@@ -802,7 +805,10 @@ Inductive case :=
 | CConc (nhosts : nat) (reqs : list (creq * cobs))
 (* one request whose first attempts die after their backend read only part of the body (scripted
    transport, or the real transport against loopback backends that reset the connection) *)
-| CRetryBody (wire : bool) (salt len : N) (chunked : bool) (atts : list ratt) (status ret : N).
+| CRetryBody (wire : bool) (salt len : N) (chunked : bool) (atts : list ratt) (status ret : N)
+(* 2-4 requests, one after the other or concurrently, through ONE parsed upstream block (scripted
+   transport): each request with what its backend saw and what its client got *)
+| CSeq (ds : list directive) (ts : list target) (retry : bool) (items : list seqitem).
 
 Definition opt_nat_eqb (a b : option nat) : bool :=
   match a, b with None, None => true | Some x, Some y => Nat.eqb x y | _, _ => false end.
@@ -874,6 +880,58 @@ Definition spec_attempt_fail (ds : list directive) (ts : list target) (q : reque
   spec_sent_fail ds q (nth (so_target so) ts dflt_target) (so_sent so).
 
 
+(* ---- one proxied request judged by itself: CProxy, and every request of a CSeq ---- *)
+Definition proxy_agree (ds : list directive) (ts : list target) (q : request) (body : bytes) (pre : hdr) (b : bresp)
+           (fails : nat) (retry : bool) (obs_sent : list sent_obs) (oc : client_obs) (ret : N) : bool :=
+  let cfg := parse_cfg ds in
+  let chosen := map (fun so => nth (so_target so) ts dflt_target) obs_sent in
+  let answered := Nat.ltb fails (length obs_sent) in
+  let readers := filter so_read obs_sent in
+  list_beq beq (map so_body readers)
+           (attempt_reads {| bb_data := body; bb_off := 0 |} (map (fun so => asked_of (so_asked so)) readers)) &&
+  is_nil (agree_sent_pointwise cfg retry q chosen (map so_sent obs_sent)) &&
+  (if answered then is_nil (agree_client_fail cfg q (q_hdr q) pre b oc) else (ret =? 502)).
+Definition proxy_spec (ds : list directive) (ts : list target) (q : request) (body : bytes) (chunked : bool) (pre : hdr) (b : bresp)
+           (bbody : bytes) (fails : nat) (retry : bool) (obs_sent : list sent_obs) (oc : client_obs) (ret : N) : bool :=
+  let nobs := length obs_sent in
+  Nat.eqb nobs (if retry then S fails else 1%nat) &&
+  forallb (fun so => is_nil (spec_attempt_fail ds ts q body chunked so)) obs_sent &&
+  (if Nat.ltb fails nobs then
+     (ret =? 0) && beq (co_body oc) bbody &&
+     is_nil (spec_client_fail ds q pre b {| w_status := co_status oc; w_hdr := co_hdr oc; w_trailers := co_trailers oc |})
+   else (ret =? 502)).
+
+(* ---- a SEQUENCE of requests served with one loaded configuration (harness kind "seq") ----
+   Proxy.ServeHTTP builds everything that evaluates the header rules per request: the replacer
+   (httpserver.NewReplacer(r, nil, "")), the outgoing request (createUpstreamRequest) and, inside the
+   retry loop, the response update function (createRespHeaderUpdateFn(host.DownstreamHeaders,
+   replacer, ...)). What an UpstreamHost keeps between requests (Conns, Fails, Unhealthy) feeds the
+   policy's Select only. [exch]: one request as it meets the host the policy chose, with the headers
+   already on its ResponseWriter and its backend's response. The sequence model hands every step
+   the HISTORY (all exchanges served before through the same configuration), which is everything a
+   host object could remember; the step of the code as it is ([serve_one]) does not look at it. *)
+Record exch := { x_q : request; x_t : target; x_pre : hdr; x_b : bresp }.
+Record xres := { xr_sent : sent; xr_view : cview }.
+(* [dq]: the request whose replacer evaluates the header_downstream placeholders *)
+Definition serve_with (c : pcfg) (retriable : bool) (dq : request) (x : exch) : xres :=
+  {| xr_sent := nth 0 (fst (run_request c retriable (x_q x) [x_t x])) dflt_sent;
+     xr_view := client_view c (env_of dq) (q_hdr dq) (x_pre x) (x_b x) |}.
+Definition serve_one (c : pcfg) (retriable : bool) (x : exch) : xres := serve_with c retriable (x_q x) x.
+Fixpoint serve_seq_with (step : list exch -> exch -> xres) (hist xs : list exch) : list xres :=
+  match xs with
+  | [] => []
+  | x :: r => step hist x :: serve_seq_with step (hist ++ [x]) r
+  end.
+Definition serve_seq (c : pcfg) (retriable : bool) : list exch -> list exch -> list xres :=
+  serve_seq_with (fun _ x => serve_one c retriable x).
+(* for contrast (C04_Props.C04_downstream_fn_cached_per_host_differs): a response update function
+   built once per host and kept, its closure holding the replacer of the FIRST request that reached
+   that host *)
+Definition first_to_host (hist : list exch) (x : exch) : exch :=
+  match find (fun f => beq (t_host (x_t f)) (t_host (x_t x))) hist with Some f => f | None => x end.
+Definition serve_seq_cached (c : pcfg) (retriable : bool) : list exch -> list exch -> list xres :=
+  serve_seq_with (fun hist x => serve_with c retriable (x_q (first_to_host hist x)) x).
+
 
 Definition judge (c : case) : N :=
   match c with
@@ -892,24 +950,8 @@ Definition judge (c : case) : N :=
                   end in
       verdict (opt_nat_eqb (match_upstream path froms) obs) spec
   | CProxy ds ts q body chunked pre b bbody fails retry obs_sent oc ret =>
-      let cfg := parse_cfg ds in
-      let chosen := map (fun so => nth (so_target so) ts dflt_target) obs_sent in
-      let nobs := length obs_sent in
-      let answered := Nat.ltb fails nobs in
-      let readers := filter so_read obs_sent in
-      let agree :=
-        list_beq beq (map so_body readers)
-                 (attempt_reads {| bb_data := body; bb_off := 0 |} (map (fun so => asked_of (so_asked so)) readers)) &&
-        is_nil (agree_sent_pointwise cfg retry q chosen (map so_sent obs_sent)) &&
-        (if answered then is_nil (agree_client_fail cfg q (q_hdr q) pre b oc) else (ret =? 502)) in
-      let spec :=
-        Nat.eqb nobs (if retry then S fails else 1%nat) &&
-        forallb (fun so => is_nil (spec_attempt_fail ds ts q body chunked so)) obs_sent &&
-        (if answered then
-           (ret =? 0) && beq (co_body oc) bbody &&
-           is_nil (spec_client_fail ds q pre b {| w_status := co_status oc; w_hdr := co_hdr oc; w_trailers := co_trailers oc |})
-         else (ret =? 502)) in
-      verdict agree spec
+      verdict (proxy_agree ds ts q body pre b fails retry obs_sent oc ret)
+              (proxy_spec ds ts q body chunked pre b bbody fails retry obs_sent oc ret)
   | CWire method req_len req_chunked up_method up_len up_diff up_cl b b_len c_status c_len c_diff c_hdr c_trailers c_chunked =>
       let spec :=
         beq up_method method && (up_len =? req_len) && no_diff up_diff &&
@@ -952,4 +994,11 @@ Definition judge (c : case) : N :=
   | CRetryBody wire salt len chunked atts status ret =>
       verdict (list_beq bobs_eqb (map ra_body atts) (retry_model_bodies salt len (map ra_asked atts)) && (status =? 200))
               (is_nil (retry_spec_fail salt len chunked atts status ret))
+  (* every request of the sequence is judged by itself: against the model and the spec evaluated on
+     THAT request, its backend's response and the configuration *)
+  | CSeq ds ts retry items =>
+      verdict (forallb (fun it => proxy_agree ds ts (si_q it) (si_body it) (si_pre it) (si_b it) 0 retry
+                                              (si_sent it) (si_client it) (si_ret it)) items)
+              (forallb (fun it => proxy_spec ds ts (si_q it) (si_body it) (si_chunked it) (si_pre it) (si_b it) (si_bbody it) 0 retry
+                                             (si_sent it) (si_client it) (si_ret it)) items)
   end.
